@@ -90,6 +90,8 @@ def min_version(recipe) -> int:
         v = max(v, node_minv(n))
     if recipe.get("routines"):
         v = max(v, 4)
+        if any(p[2] == "ref" for r in recipe["routines"] for p in r["params"]):
+            v = max(v, 5)  # by-reference ScratchVar parameters are DynamicScratchVars: loads/stores (v5)
     return v
 
 
